@@ -571,23 +571,56 @@ def generate_tcpcc():
 TARGETS = {os.path.join('OnlVerif', 'Generated', 'TcpCC.lean'): generate_tcpcc}
 
 
-def regenerate_all():
-    """rewrite lean/OnlVerif/Generated/*.lean from the current source; returns the list of files that changed.
+def all_targets():
+    """every generated file: {path relative to lean/: generator}; the element targets live in `py2lean/elements.py`"""
+    from py2lean import elements
+    t = dict(TARGETS)
+    t.update(elements.TARGETS)
+    return t
+
+
+PINNED = os.path.join(os.path.dirname(os.path.abspath(__file__)), 'pinned')
+
+
+def regenerate_all(only=None, pin=False):
+    """rewrite lean/OnlVerif/Generated/*.lean from the current source (atomically, and only the files whose text
+    changed, so an unchanged source costs no rebuild); returns the list of files that changed.  `only`: file stems
+    (e.g. `('Port',)`) to restrict the run to - a check regenerates the files its own theorems are about.
+    `pin=True` also stores the text under `py2lean/pinned/` (the translation of the pinned tree, for `diff_vs_pinned`).
     Raises `Unsupported` if the source left the translatable subset."""
     changed = []
-    for rel, gen in TARGETS.items():
+    for rel, gen in all_targets().items():
+        stem = os.path.splitext(os.path.basename(rel))[0]
+        if only is not None and stem not in only:
+            continue
         text = gen()
         path = os.path.join(LEAN, rel)
         old = open(path).read() if os.path.exists(path) else None
         if old != text:
             os.makedirs(os.path.dirname(path), exist_ok=True)
-            tmp = path + '.tmp'
+            tmp = f'{path}.{os.getpid()}.tmp'
             with open(tmp, 'w') as f:
                 f.write(text)
             os.replace(tmp, path)
             changed.append(rel)
+        if pin:
+            os.makedirs(PINNED, exist_ok=True)
+            with open(os.path.join(PINNED, stem + '.lean'), 'w') as f:
+                f.write(text)
     return changed
 
 
+def diff_vs_pinned(stem, limit=40):
+    """changed lines of Generated/<stem>.lean against the translation of the pinned tree (empty on the unchanged tree)"""
+    import difflib
+    pinned = os.path.join(PINNED, stem + '.lean')
+    cur = os.path.join(LEAN, 'OnlVerif', 'Generated', stem + '.lean')
+    if not (os.path.exists(pinned) and os.path.exists(cur)):
+        return []
+    return [l for l in difflib.unified_diff(open(pinned).read().splitlines(), open(cur).read().splitlines(), 'pinned',
+                                            'generated', lineterm='', n=0) if not l.startswith(('---', '+++', '@@'))][:limit]
+
+
 if __name__ == '__main__':
-    print(regenerate_all())
+    import sys
+    print(regenerate_all(pin='--pin' in sys.argv))
